@@ -91,6 +91,13 @@ def directed(mon):
         case["max_rounds"] = 60
         run_and_check(mon, case, order, variant)
         mon.count("batch_gt_active_runs")
+    # budget-terminated runs: budget hit exactly and overshot, integer and fractional costs
+    for variant, costs, budget, batch in (("PartialGP-rect", [1.0, 2.0], 3.0, 1), ("PartialGP-ell", [1.0, 1.0], 4.0, 2),
+                                          ("PartialGP-rect", [1.0, 1.5], 3.2, 1), ("PartialGP-rect", [2.0, 1.0], 6.0, 3)):
+        case, order = runs.make_case(rng, variant, m=2, K=6, cone_families=["orthant"], costs=costs, budget=budget, batch=batch,
+                                     contraction=1.0, ds_family="tight")
+        case["max_rounds"] = 40
+        run_and_check(mon, case, order, variant)
     # K2: VOGP_AD on a 1-D domain
     case, order = runs.make_ad_case(rng, d=1, m=2)
     tr = runs.run_ad_case(case, order, mon)
